@@ -4,7 +4,9 @@ use super::{
 };
 use crate::ScopeRef;
 use crate::css::{self, CssString, ValueToMapError};
-use crate::input::{Context, Loader, Parsed, SourceKind, SourcePos};
+use crate::input::{
+    Context, Loader, Parsed, SourceFile, SourceKind, SourcePos,
+};
 use crate::ordermap::OrderMap;
 
 /// A declared mixin
@@ -41,6 +43,7 @@ impl MixinDecl {
                         call_args.evaluate(scope)?.args,
                     )?,
                     body: Parsed::Scss(decl.body.body),
+                    locked: None,
                 })
             }
             Self::NoBody => Ok(Mixin::empty(scope)),
@@ -85,11 +88,18 @@ impl MixinDecl {
                         scope.define(key.into(), value)?;
                     }
                 }
-                file_context.unlock_loading(&source);
-                Ok(Mixin {
-                    scope,
-                    body: source.parse()?,
-                })
+                // The file stays locked until the body is handled.
+                match source.parse() {
+                    Ok(body) => Ok(Mixin {
+                        scope,
+                        body,
+                        locked: Some(source),
+                    }),
+                    Err(err) => {
+                        file_context.unlock_loading(&source);
+                        Err(err.into())
+                    }
+                }
             }
         }
     }
@@ -105,6 +115,8 @@ pub struct Mixin {
     pub scope: ScopeRef,
     /// The body of this mixin.
     pub body: Parsed,
+    /// A file that is locked for loading until the body is handled.
+    pub(crate) locked: Option<SourceFile>,
 }
 
 impl Mixin {
@@ -112,6 +124,7 @@ impl Mixin {
         Self {
             scope,
             body: Parsed::Css(vec![]),
+            locked: None,
         }
     }
     pub(crate) fn define_content(
